@@ -9,7 +9,9 @@ variable definitions (unique, input types, defaults), variable uses defined / al
 directives defined / in valid locations / unique unless repeatable / arguments, field selection merging: same
 response shape and same name and arguments on overlapping parents), with apollo-compiler's named differences
 (undefined root type rejected; no @skip / @include on subscription root selections).
-Cases: four seed documents that together use every construct against a fixed schema with every kind of type; EVERY
+Cases: every sequence of up to three selections from a pool of fourteen (aliases, arguments, inline fragments on
+disjoint objects, nested sub-selections) chosen so that their combinations exercise both halves of field merging
+(exhaustive; every 4th triple in the quick tier); five seed documents that together use every construct against a fixed schema with every kind of type; EVERY
 single structure-aware mutation of each at every position, and sampled double mutations.  The harness renders each
 abstract document, parses it, checks that it projects back to the same abstract document, and records the real
 verdict; TLC (Trace_ExecRules) evaluates Valid(doc) and requires equality.
@@ -28,6 +30,8 @@ def run(chk):
 
 def mutation_kind(origin):
     parts = origin.split(":", 1)
+    if origin.startswith("merge-"):
+        return "merge-universe"
     if len(parts) == 1:
         return "seed"
     muts = parts[1].split("+")
